@@ -1,13 +1,8 @@
-(* RawJsonProofs: the framing logic of RawJSON (model: RawJson.v) on top of the scanner of
-   JsonScan.v.  PARTIAL: the two facts about the scanner itself that the full theorems need,
-     (a) prefix extension: for every JSON object, array or string r (no outer white space) and
-         every continuation,  scan (r ++ rest) = Done rest,
-     (b) fuel: scan never returns NoFuel (fuel S (2 * length s) suffices),
-   are NOT proved (mutual induction over scan_value / scan_elems / scan_members).  (a) appears
-   below as the hypothesis [self_delimiting] on each record, with closed instances as
-   non-vacuity examples; both are exercised by the correspondence check on every run. *)
+(* RawJsonProofs: C11 and C12 for the RawJSON framing (model: RawJson.v over the scanner of
+   JsonScan.v).  The scanner facts (fuel sufficiency, prefix extension) are proved for all inputs
+   in JsonScanProofs.v. *)
 From Coq Require Import List NArith Bool Lia Arith.
-From JV Require Import Bytes FrameBase FrameBaseProofs JsonScan RawJson.
+From JV Require Import Bytes FrameBase FrameBaseProofs JsonScan JsonScanProofs RawJson.
 Import ListNotations.
 Local Open Scope N_scope.
 
@@ -19,22 +14,28 @@ Proof. induction 1 as [|c j Hc _ IH]; cbn; auto. now rewrite Hc. Qed.
 Lemma skip_ws_all j : all_ws j -> skip_ws j = [].
 Proof. induction 1 as [|c j Hc _ IH]; cbn; auto. now rewrite Hc. Qed.
 
-(* the scanner finds the end of r whatever follows *)
-Definition self_delimiting (r : bytes) : Prop :=
-  exists c t, r = c :: t /\ is_ws c = false /\ forall rest, scan (r ++ rest) = Done rest.
-
 (* records the round trip is claimed for: the empty record (sent as null LF, received empty)
-   and self-delimiting JSON texts other than null *)
-Definition legal (r : bytes) : Prop := r = [] \/ (self_delimiting r /\ is_null r = false).
+   and every JSON object, array or string without outer white space (json_record, a boolean
+   checker: the text starts with an opening brace, bracket or quote and Go's scanner grammar
+   accepts exactly all of it).  Bare numbers and literals are excluded: two of them sent
+   back to back are one token (12) or need a separator the framing does not add. *)
+Definition legal (r : bytes) : Prop := r = [] \/ json_record r = true.
 
 Definition enc (r : bytes) : bytes := if is_nil r || is_null r then s_null ++ [10] else r.
 
 Lemma send_enc r : send r = Sent (enc r).
 Proof. unfold send, enc. destruct (is_nil r || is_null r); reflexivity. Qed.
 
+Lemma json_record_not_null r : json_record r = true -> is_nil r = false /\ is_null r = false.
+Proof.
+  intros H. destruct (json_record_head r H) as [c [t [-> [_ Hc]]]]. split; [reflexivity|].
+  unfold is_null, s_null. cbn [beq]. destruct Hc as [-> | [-> | ->]]; reflexivity.
+Qed.
+
 Lemma enc_legal r : legal r -> enc r = match r with [] => s_null ++ [10] | _ => r end.
 Proof.
-  intros [->|[[c [t [-> _]]] Hn]]; [reflexivity|]. unfold enc. rewrite Hn. reflexivity.
+  intros [->|H]; [reflexivity|]. destruct (json_record_not_null r H) as [H1 H2].
+  unfold enc. rewrite H1, H2. destruct r; [discriminate|reflexivity].
 Qed.
 
 Lemma scan_null rest : scan (s_null ++ 10 :: rest) = Done (10 :: rest).
@@ -44,23 +45,27 @@ Lemma recv_enc j r rest :
   all_ws j -> legal r ->
   exists j', recv None (j ++ enc r ++ rest) = Ok r None (j' ++ rest) /\ all_ws j'.
 Proof.
-  intros Hj Hl. rewrite (enc_legal r Hl). destruct Hl as [->|[[c [t [-> [Hc Hs]]]] Hn]].
+  intros Hj Hl. rewrite (enc_legal r Hl). destruct Hl as [->|H].
   - exists [10]. split; [|repeat constructor].
     unfold recv. rewrite skip_ws_app by assumption.
     change (skip_ws ((s_null ++ [10]) ++ rest)) with (s_null ++ 10 :: rest).
     cbn [s_null app]. change (110 :: 117 :: 108 :: 108 :: 10 :: rest) with (s_null ++ 10 :: rest).
     rewrite scan_null. rewrite span_before_app. reflexivity.
-  - exists []. split; [|constructor].
-    unfold recv. rewrite skip_ws_app by assumption. cbn [app skip_ws]. rewrite Hc.
-    change (c :: t ++ rest) with ((c :: t) ++ rest).
-    rewrite Hs. rewrite span_before_app. rewrite Hn. reflexivity.
+  - destruct (json_record_not_null r H) as [_ Hn].
+    destruct (json_record_head r H) as [c [t [E [Hc _]]]]. subst r.
+    exists []. split; [|constructor].
+    assert (Hs : scan (c :: t ++ rest) = Done rest) by (apply (scan_self_delimiting (c :: t) rest H)).
+    unfold recv. rewrite skip_ws_app by assumption. cbn [app skip_ws]. rewrite Hc, Hs.
+    change (c :: t ++ rest) with ((c :: t) ++ rest). rewrite span_before_app, Hn. reflexivity.
 Qed.
 
 Lemma recv_end j : all_ws j ->
   recv None j = Err EEOF (Some EEOF) j /\ recv (Some EEOF) j = Err EEOF (Some EEOF) j.
 Proof. intros Hj. unfold recv. rewrite skip_ws_all by assumption. auto. Qed.
 
-Theorem rawjson_round_trip_partial : forall rs,
+(* ---- C11 ---------------------------------------------------------------------------- *)
+
+Theorem rawjson_round_trip : forall rs,
   Forall legal rs ->
   send_all send rs = Some (concat (map enc rs)) /\
   recv_all (concat (map enc rs)) = map IRec rs ++ [IErr EEOF].
@@ -69,19 +74,20 @@ Proof.
   - apply send_all_sent. apply Forall_forall. intros r _. apply send_enc.
   - unfold recv_all.
     apply (round_trip recv enc (fun st => st = None) legal all_ws); auto; [| | |constructor].
-    + intros r Hl. rewrite (enc_legal r Hl). destruct Hl as [->|[[c [t [-> _]]] _]]; discriminate.
+    + intros r Hl. rewrite (enc_legal r Hl). destruct Hl as [->|H]; [discriminate|].
+      destruct (json_record_head r H) as [c [t [-> _]]]. discriminate.
     + intros st j r rest -> Hj Hl. destruct (recv_enc j r rest Hj Hl) as [j' [E Hj']].
       exists None, j'. auto.
     + intros st j -> Hj. destruct (recv_end j Hj) as [E1 E2]. exists (Some EEOF), j, (Some EEOF), j. auto.
 Qed.
 
-(* closed instances of the hypothesis: an object, an array, a string, nested values *)
-Example self_delimiting_object : self_delimiting [123; 125].                       (* {} *)
-Proof. exists 123, [125]. repeat split. Qed.
-Example self_delimiting_string : self_delimiting [34; 97; 92; 34; 34].             (* the string a-backslash-quote *)
-Proof. exists 34, [97; 92; 34; 34]. repeat split. Qed.
-Example self_delimiting_nested : self_delimiting [91; 123; 34; 97; 34; 58; 91; 49; 44; 50; 93; 125; 93]. (* array of an object with an array member *)
-Proof. eexists _, _. repeat split. Qed.
+(* json_record: an object, a string with escapes, a nested array with numbers and white space *)
+Example json_record_examples :
+  json_record [123; 125] = true /\ json_record [34; 97; 92; 34; 34] = true /\
+  json_record [91; 123; 34; 97; 34; 58; 32; 91; 49; 44; 50; 46; 53; 101; 51; 93; 125; 44; 32; 110; 117; 108; 108; 93] = true /\
+  json_record [49; 50] = false /\ json_record [32; 123; 125] = false /\ json_record [123; 125; 32] = false /\
+  json_record [123] = false.
+Proof. vm_compute. repeat split. Qed.
 
 Example rawjson_round_trip_nonvacuous :
   Forall legal [[123; 125]; []; [34; 97; 92; 34; 34]] /\
@@ -90,23 +96,48 @@ Example rawjson_round_trip_nonvacuous :
 Proof.
   split; [|vm_compute; reflexivity].
   constructor; [|constructor; [|constructor; [|constructor]]].
-  - right. split; [apply self_delimiting_object | reflexivity].
+  - right. reflexivity.
   - now left.
-  - right. split; [apply self_delimiting_string | reflexivity].
+  - right. reflexivity.
 Qed.
 
-(* numbers are not self-delimiting: 1 followed by 2 is the single value 12 (so the round trip
-   is not claimed for them, and the framing is documented as unsuitable for bare scalars) *)
+(* numbers are not self-delimiting: 1 followed by 2 is the single value 12 *)
 Example number_not_self_delimiting : scan ([49] ++ [50]) = Done [].
 Proof. reflexivity. Qed.
 
-(* C12, partial: the model of Recv has no panic outcome; what is missing is (b) above *)
-Theorem rawjson_never_panics_partial : forall st s,
-  match recv st s with Crash _ => False | _ => True end.
+(* ---- C12 ---------------------------------------------------------------------------- *)
+
+(* one Recv on any stream in any decoder state: no panic, no fuel exhaustion *)
+Theorem rawjson_total_no_crash : forall st s,
+  match recv st s with Crash _ | OutOfFuel => False | _ => True end.
 Proof.
   intros st s. unfold recv. destruct st; [exact I|].
-  destruct (skip_ws s); [exact I|]. destruct (scan _); exact I.
+  destruct (skip_ws s) as [|c v] eqn:E; [exact I|].
+  pose proof (scan_fuel_ok (c :: v)) as P. destruct (scan (c :: v)); try exact I. exact P.
 Qed.
+
+Lemma rawjson_progress : progress_ok recv (fun _ => True).
+Proof.
+  intros st s _. unfold recv. destruct st as [e|].
+  - split; auto. right. split; auto. exists (Some e). auto.
+  - pose proof (skip_ws_len s) as Hw. destruct (skip_ws s) as [|c v] eqn:E.
+    + split; auto. right. split; auto. exists (Some EEOF). auto.
+    + pose proof (scan_fuel_ok (c :: v)) as P. destruct (scan (c :: v)) as [rest| | |]; cbn in P.
+      * split; auto. rewrite ?E in Hw. cbn [length] in *. lia.
+      * split; auto. right. split; auto. exists (Some EJSONSyntax). auto.
+      * split; auto. right. split; auto. exists (Some EUnexpectedEOF). auto.
+      * contradiction.
+Qed.
+
+(* the whole sequence of Recv calls on any stream: no panic, no fuel exhaustion *)
+Theorem rawjson_recv_all_clean : forall s, clean (recv_all s).
+Proof.
+  intros s. unfold recv_all. apply (recv_all_clean _ (fun _ => True)); auto. apply rawjson_progress.
+Qed.
+
+(* an error is sticky: once Recv has failed it keeps returning the same error *)
+Theorem rawjson_sticky : forall e s, recv (Some e) s = Err e (Some e) s.
+Proof. reflexivity. Qed.
 
 Theorem rawjson_exhausted : forall j, all_ws j ->
   recv_all j = [IErr EEOF].
